@@ -64,8 +64,34 @@ func main() {
 			lens[i] = 1 + rng.Intn(30)
 		}
 		threshold := []int{0, 0, 3, 1000}[rng.Intn(4)]
-		scenario := []string{"intact", "removed", "truncated", "truncated", "truncated"}[rng.Intn(5)]
+		scenario := []string{"intact", "removed", "truncated", "truncated", "truncated", "unusable-directory"}[rng.Intn(6)]
 		desc := fmt.Sprintf(`{"seed":%d,"files":%d,"lines":%q,"threshold":%d,"scenario":%q}`, cs, nfiles, fmt.Sprint(lens), threshold, scenario)
+		if scenario == "unusable-directory" {
+			// the configured directory does not exist (or is a file): Hibernate must return an error whenever it has to
+			// write the arena, and must not invent another place
+			bad := filepath.Join(dir, "missing", "sub")
+			if rng.Intn(2) == 0 {
+				bad = filepath.Join(dir, "a-file")
+				ioutil.WriteFile(bad, []byte("x"), 0600)
+			}
+			bdx, err := newAnalysis(bad, threshold, rng, nfiles, lens)
+			if err != nil {
+				return desc, "disk-hibernation", "setup: " + err.Error(), nil
+			}
+			total := 0
+			for _, n := range lens {
+				total += n
+			}
+			herr := bdx.Hibernate()
+			writes := threshold == 0 || threshold == 3 // every arena built here holds more than 3 nodes
+			if writes && herr == nil {
+				return desc, "disk-hibernation", "Hibernate succeeded although the hibernation directory is unusable", []string{scenario}
+			}
+			if !writes && herr != nil {
+				return desc, "disk-hibernation", "Hibernate failed although nothing has to be written (below the threshold): " + herr.Error(), []string{scenario}
+			}
+			return desc, "disk-hibernation", "", []string{scenario}
+		}
 		bd, err := newAnalysis(dir, threshold, rng, nfiles, lens)
 		if err != nil {
 			return desc, "disk-hibernation", "setup: " + err.Error(), nil
